@@ -7,6 +7,8 @@ package main
 // EvmCosmos drivers.
 
 import (
+	tmversion "github.com/cometbft/cometbft/version"
+	tmtypes "github.com/cometbft/cometbft/types"
 	"bytes"
 	"crypto/sha256"
 	"encoding/hex"
@@ -83,6 +85,10 @@ type GenesisCfg struct {
 	NoPrecompiles bool `json:"noPrecompiles"`
 	// Loopback: block 1 opens an ICS-20 channel transfer/channel-0 <-> transfer/channel-1 over the localhost connection
 	Loopback bool `json:"loopback"`
+	// GenesisTime (RFC 3339) replaces the default scripted start of the scenario
+	GenesisTime string `json:"genesisTime"`
+	// HistoricalEntries of x/staking (0: the default); a small value prunes the header history BLOCKHASH is served from
+	HistoricalEntries uint32 `json:"historicalEntries"`
 }
 
 func DefaultGenesisCfg(seed int64) GenesisCfg {
@@ -192,6 +198,9 @@ func (w *World) GenesisState() (map[string]json.RawMessage, []abci.ValidatorUpda
 	gs[banktypes.ModuleName] = cdc.MustMarshalJSON(banktypes.NewGenesisState(banktypes.DefaultGenesisState().Params, balances, supply, []banktypes.Metadata{}, []banktypes.SendEnabled{}))
 
 	sp := stakingtypes.DefaultParams()
+	if cfg.HistoricalEntries > 0 {
+		sp.HistoricalEntries = cfg.HistoricalEntries
+	}
 	sp.BondDenom = utils.BaseDenom
 	sp.UnbondingTime = 60 * time.Second
 	sp.MaxValidators = 5
@@ -252,6 +261,7 @@ type Node struct {
 	Header   tmproto.Header // header of the block in progress
 	opened   int
 	LastReq  abci.RequestBeginBlock
+	Probe   *common.Address // environment-reading contract (deploy_probe)
 	Sprayer  *common.Address // contract that pays 1 unit to eight fresh low addresses (scenario state)
 	imported *Node // a chain started from this node's exported genesis (C19), if any
 }
@@ -341,7 +351,17 @@ func (n *Node) BeginBlock(b BlockIn) abci.ResponseBeginBlock {
 			Validator: abci.Validator{Address: v.ConsAddr(), Power: val.ConsensusPower(sdk.DefaultPowerReduction)},
 			Height:    n.Height, Time: n.Time.Add(-time.Second), TotalVotingPower: 0})
 	}
-	n.LastReq = abci.RequestBeginBlock{Header: n.Header, LastCommitInfo: abci.CommitInfo{Votes: votes}, ByzantineValidators: byz}
+	// a complete header, so that its hash (what BLOCKHASH answers, from the context for the current block and from
+	// x/staking's historical info for earlier ones) is defined as on a real chain
+	vh := sha256.Sum256([]byte("hv-validators"))
+	n.Header.Version.Block = tmversion.BlockProtocol
+	n.Header.ValidatorsHash = vh[:]
+	n.Header.NextValidatorsHash = vh[:]
+	var hash []byte
+	if hdr, err := tmtypes.HeaderFromProto(&n.Header); err == nil {
+		hash = hdr.Hash()
+	}
+	n.LastReq = abci.RequestBeginBlock{Hash: hash, Header: n.Header, LastCommitInfo: abci.CommitInfo{Votes: votes}, ByzantineValidators: byz}
 	res := n.App.BeginBlock(n.LastReq)
 	if n.W.Cfg.Loopback && h == 1 {
 		OpenLoopbackChannel(n)
